@@ -1000,7 +1000,24 @@ func runFailures(cfg *config, id int, r *hx.Rng) {
 		n := r.Range(1, 11)
 		k := r.Intn(n) // position of the invalid row
 		good := func(i int) []interface{} { return []interface{}{int64(100*s + i), "ok", "row", false} }
-		switch r.Intn(8) {
+		switch r.Intn(9) {
+		case 8: // CREATE TABLE whose catalog rows do not fit a page cell: table name or k-th column name too long
+			name := fmt.Sprintf("long%d", s)
+			if r.Bool() {
+				name += strings.Repeat("n", r.Range(355, 400))
+				d.stmt("CREATE TABLE " + name + " (a int, b varchar(20))")
+			} else {
+				var cols []string
+				for i := 0; i < n; i++ {
+					c := fmt.Sprintf("c%d", i)
+					if i == k {
+						c += strings.Repeat("m", r.Range(370, 400))
+					}
+					cols = append(cols, c+" int")
+				}
+				d.stmt("CREATE TABLE " + name + " (" + strings.Join(cols, ", ") + ")")
+			}
+			d.selectAll(name)
 		case 0, 1, 2: // multi-row INSERT, k-th row invalid
 			var rs [][]interface{}
 			for i := 0; i < n; i++ {
